@@ -16,14 +16,15 @@ LEVEL_TEXT = ("Machine-checked Coq theorems over faithful models of the comparis
               "clone/clone_from/from_ref) returns a canonical representation; the as-is operator models proved exact elsewhere (C01: "
               "IBig + - * sqr cubic and UBig - in every ownership form; C09: & | ^ and_not << >> set_bit clear_bit), composed with "
               "Repr::as_sign_typed / from_typed / with_sign, return a canonical representation of the right value for every word size "
-              ">= 8 and all operands; all of it lifted by induction to every finite history mixing constructors, copies, sign changes, "
+              ">= 8 and all operands (C01's signed results are never a negative zero, so the stored sign is the computed one); any "
+              "integer computed at value level and stored through from_buffer/with_sign is canonical; all of it lifted by induction to every finite history mixing constructors, copies, sign changes, "
               "in-place updates and arithmetic (any two values of such a history compare, equal and hash by value); (floats) "
               "repr_cmp_same_base with its digit shortcut equals the order of the values for all bases, precisions and "
               "admissible digit estimates (the precision shortcut of the pinned tree, unsound for significands with precision+2 or more "
               "digits, is modelled separately, refuted, and was repaired), == is value equality on normalised representations, "
               "normalize establishes the invariant for every base (all three branches; proved equal to C03's model of Repr::new), the "
               "specification order is a total order; every modelled producer returns a normalised representation for every base, "
-              "precision, mode and input - Repr::new, Context::convert_base on all its modelled routes (same base, power-up, "
+              "precision, mode and input - Repr::new, Context::repr_round, FromStr (C08's parser model, every accepted text), Context::convert_base on all its modelled routes (same base, power-up, "
               "power-down, multiplication, division by repr_div and by the long division: C08's model), with_precision (C08's and "
               "C10's models), Context::mul/sqr/cubic (C03), trunc/fract/split_at_point/ceil/floor/round (C10), negation, the "
               "infinities - hence == is value equality and cmp = Equal iff == on anything they return (C05_float_eq_sound_on_producers); "
@@ -34,11 +35,12 @@ LEVEL_TEXT = ("Machine-checked Coq theorems over faithful models of the comparis
 LEVEL_NOTE = ("Trusted: Coq kernel, extraction (FastZ.v), zarith, the harness and the thin OCaml driver. Modelled, not verified: the Rust "
               "sources. Only compared at run time, not proved: (a) integer results of operations without an as-is Repr-level model "
               "(division/remainder - C02's model works on values and its quotient enters through from_buffer -, gcd, roots, pow, radix "
-              "and byte conversion, bit ops on negative IBig) - the layout hook checks each such value; the sign of a signed result is "
-              "applied with Repr::with_sign as add_ops/mul_ops.rs do, so a zero magnitude is +0 by construction of the composition; "
-              "(b) float add/sub/div/sqrt/exp/ln/powi, parsing, f32/f64 and rational sources: C03's models of these are value-level "
+              "and byte conversion, bit ops on negative IBig) - the layout hook checks each such value; they are covered by the theorems only "
+              "under 'the result is stored through from_buffer/with_sign' (C05_store_value); "
+              "(b) float add/sub/div/sqrt/exp/ln/powi, f32/f64 and rational sources: C03's models of these are value-level "
               "(they omit the final Repr::new), so their normalisation is checked on every run (new producer routes mulfac, muldivx, "
-              "divself, sqrsqrt, addtrunc..., fromstr, fromf64/f32, ratfloat, r_add...r_ln1p) but not proved beyond 'the last step is "
+              "divself, sqrsqrt, addtrunc..., fromstr, fromf64/f32, reprf64/f32, ratfloat, r_add/sub/aeq/seq/mul/div in the four ownership forms, "
+              "r_sqr...r_ln1p, r_ctx*) but not proved beyond 'the last step is "
               "Repr::new'; the ln/exp route of convert_base (|exponent| > 38) is not modelled; (c) f32 digits_ub satisfies the "
               "hypothesis of the float theorems; (d) the hasher call sequence. No open finding: ones(2*word bits) on the heap and the "
               "float precision shortcut were repaired in /repo.")
@@ -52,7 +54,7 @@ RULE = ("cases = 2 or 3 values each produced along a route (from_words, padded w
         "precisions around the exact digit count and unlimited, each compared with the same value built directly, a second "
         "conversion route and neighbours; producers whose raw result carries trailing digits (cofactor products, exact "
         "quotients and roots, trunc/floor/ceil/round/split/fract of x + fraction, parsing with trailing zeros, f32/f64, integers, "
-        "RBig::to_float) and really rounded + - * / sqr sqrt powi inv exp ln_1p results (invariants and comparisons only); rationals: from_parts, signed, const, scaled by a common factor, arithmetic, "
+        "RBig::to_float) and really rounded + - * / sqr cubic sqrt powi inv exp ln_1p results (invariants and comparisons only); rationals: from_parts, signed, const, scaled by a common factor, arithmetic, "
         "canonicalize) x value classes {0, 1, 2, 3, 4, threshold+-1 words, 2^64k +- 1, all-ones} x relations {same value, +-1, negated, "
         "other length, shortcut boundaries exp+precision+{-1..2}, exp+digits+{-1..1}, bit-length filter edges} x all pairs compared with "
         "every impl (==, !=, cmp, partial_cmp, <, <=, >, >=, abs_cmp, abs_eq, mixed IBig/UBig and RBig/Relaxed forms, Hash input). "
@@ -243,9 +245,27 @@ def norm(b, s, e):
     return s, e
 
 
+def prime_power(b):
+    """(q, k) with b = q^k, k > 1, else None"""
+    q = min(f for f in range(2, b + 1) if b % f == 0)
+    k, x = 0, 1
+    while x < b:
+        x *= q
+        k += 1
+    return (q, k) if x == b and k > 1 else None
+
+
 def gen_sig(rng, b):
     k = rng.below(8)
-    if k == 0:
+    pp = prime_power(b)
+    if pp and rng.chance(1, 3):
+        # b = q^k: significands q^j * m with 0 < j < k are normalised, but their squares / cubes / products are not
+        q, kk = pp
+        m = rng.choice([1, 1, 3, 5, rng.bits(rng.range(1, 40)) * 2 + 1])
+        while m % q == 0:
+            m += 1
+        s = q ** rng.range(1, kk) * m
+    elif k == 0:
         s = rng.choice([1, 2, b - 1, b + 1, b * b - 1])
     elif k == 1:
         s = b ** rng.range(1, 40) + rng.choice([1, -1])
@@ -290,14 +310,15 @@ def flt_route(rng, b, s, e, prec):
     if e + d <= 0:
         prod.append("addfract")
     if b == 2 and abs(s) < (1 << 53) and -1000 <= e and e + d <= 1000:
-        prod += ["fromf64", "fromf64"]
+        prod += ["fromf64", "fromf64", "reprf64"]
     if b == 2 and abs(s) < (1 << 24) and -120 <= e and e + d <= 120:
-        prod += ["fromf32", "fromf32"]
-    rounded = ["r_add", "r_sub", "r_mul", "r_div", "r_sqr", "r_sqrt", "r_inv", "r_exp", "r_ln1p"]
+        prod += ["fromf32", "fromf32", "reprf32"]
+    rounded = ["r_add", "r_sub", "r_aeq", "r_seq", "r_aeq", "r_seq", "r_mul", "r_mul", "r_div", "r_sqr", "r_cubic", "r_sqr", "r_cubic", "r_sqrt",
+               "r_inv", "r_exp", "r_ln1p", "r_ctxaeq", "r_ctxseq", "r_ctxadd0", "r_ctxsub0", "r_ctxdiv1", "r_ctxmul1", "r_ctxpowi1"]
     if d <= 12:
         rounded.append("r_powi")
     k = rng.below(10)
-    r = rng.choice(routes if k < 5 else prod if k < 8 else rounded)
+    r = rng.choice(routes if k < 4 else prod if k < 7 else rounded)
     p = 0
     if r == "muldivx":
         p = rng.choice([1, 3, 7, b, b + 1, b * b, 6, (1 << 64) + 1, abs(s)])
@@ -312,6 +333,14 @@ def flt_route(rng, b, s, e, prec):
             else rng.choice([1, -1, sg, sg * (b - 1), gen_sig(rng, b) % (b ** d) + 1])
         if p == 0:
             p = 1
+    elif r in ("r_aeq", "r_seq", "r_ctxaeq", "r_ctxseq"):
+        # same exponent, the sum / difference ends in zero digits (or cancels completely)
+        t = ((-s) if r.endswith("aeq") else s) % b
+        p = rng.choice([t, t + b, t + b * b * 7, t + b * (b ** d - 1)])
+        if r.endswith("seq") and rng.chance(1, 6):
+            p = s
+        if r.endswith("aeq") and rng.chance(1, 6):
+            p = -s
     elif r == "r_mul":
         f = min(q for q in range(2, b + 1) if b % q == 0)
         p = rng.choice([b // f if b // f > 1 else 3, f, b - 1, b + 1, gen_sig(rng, b), b ** d - 1])
@@ -321,10 +350,14 @@ def flt_route(rng, b, s, e, prec):
         p = rng.choice([2, 3, 5])
     elif r in ("r_exp", "r_ln1p"):
         p = d + rng.choice([1, 2, 5])
-    if r in prod or r in rounded:
-        if r == "fromf64":
+    elif r.startswith("r_ctx") and not r.endswith("eq"):
+        p = rng.choice([1, 1, 2, 3, d - 1 if d > 1 else 1])
+    if r in ("r_add", "r_sub", "r_aeq", "r_seq", "r_mul", "r_div"):
+        r += rng.choice(["", "_vr", "_rv", "_rr"])  # the four ownership forms are separate operator bodies
+    if r[:5] in ("r_add", "r_sub", "r_aeq", "r_seq", "r_mul", "r_div") or r in prod or r in rounded:
+        if r in ("fromf64", "reprf64"):
             prec = 53
-        elif r == "fromf32":
+        elif r in ("fromf32", "reprf32"):
             prec = 24
         return prec, r, p
     if r == "parts_scaled":
@@ -388,7 +421,7 @@ def flt_related(rng, b, s, e, prec):
 
 
 def flt_case(rng, tier):
-    b = rng.choice([2, 2, 10, 10, 16, 3])
+    b = rng.choice([2, 2, 10, 10, 16, 16, 3])
     k = 3 if rng.chance(1, 4) else 2
     s, e, prec = flt_value(rng, b)
     vals = [(s, e, prec)]
@@ -409,6 +442,11 @@ def flt_case(rng, tier):
             toks += [m, "0", "0", "%x" % p1, rng.choice(["repr", "parts", "clone", "negneg", "addsub0", "mul1", "fromint", "shlr"]), "1"]
             continue
         p1, r, p = flt_route(rng, b, s1, e1, p1)
+        if ((r.startswith("r_ctx") and not r.endswith("eq")) or r == "withprec") and rng.chance(1, 2):
+            # all digits b-1: dropping digits carries into a power of the base, which must be re-normalised
+            s1 = (b ** rng.range(2, 30) - 1) * (1 if s1 > 0 else -1)
+            if r == "withprec":
+                p1 = max(1, ndig(b, s1) - rng.choice([1, 2, 5]))
         toks += [m, hx(s1), hx(e1), "%x" % p1, r, hx(p)]
     return " ".join(toks)
 
